@@ -10,7 +10,7 @@ if os.path.isdir(f"{dst}/demo"):
     shutil.rmtree(f"{dst}/demo")
 shutil.copytree(f"{out}/demo", f"{dst}/demo")
 meta = json.load(open(f"{out}/meta.json"))
-key = os.path.basename(out.rstrip('/'))
+key = os.environ.get('SEEDED_KEY') or os.path.basename(out.rstrip('/'))
 results = {}
 before = {}
 for rf in sys.argv[3:]:
